@@ -490,6 +490,10 @@ func apiCatalogue(g *gen.Gen, seed int64, budget int, record func(name, owner st
 		mk(qrb.Least(qrb.N("a"), qrb.Int(9)), `Least(N("a"), Int(9))`), mk(qrb.NullIf(qrb.N("a"), qrb.Int(0)), `NullIf(N("a"), Int(0))`),
 		mk(qrb.Exps(qrb.Int(1), qrb.Int(2)), "Exps(Int(1), Int(2))"), mk(qrb.Array(qrb.Int(1), qrb.Int(2)), "Array(Int(1), Int(2))"),
 		mk(sel, `Select(N("a")).From(N("t"))`), mk(qrb.Exists(sel), "Exists(sel)"), mk(qrb.Any(sel), "Any(sel)"),
+		// the negated / case-insensitive / SIMILAR TO members of the LIKE family (their Escape refinement is a method of the result)
+		mk(qrb.N("a").NotLike(qrb.String("x%")), `N("a").NotLike(String("x%"))`), mk(qrb.N("a").ILike(qrb.String("x%")), `N("a").ILike(String("x%"))`),
+		mk(qrb.N("a").NotILike(qrb.String("x%")), `N("a").NotILike(String("x%"))`), mk(qrb.N("a").SimilarTo(qrb.String("x%")), `N("a").SimilarTo(String("x%"))`),
+		mk(qrb.N("a").NotSimilarTo(qrb.String("x%")), `N("a").NotSimilarTo(String("x%"))`),
 		// JSON objects of both flavours: empty, and with the keys the string operands below hit first / not at all / last
 		mk(builder.JsonBuildObject(false), "JsonBuildObject(false)"),
 		mk(builder.JsonBuildObject(true).Prop("x", qrb.N("a")).Prop("k", qrb.Int(1)).Prop("z", qrb.Arg(pool[2])), `JsonBuildObject(true).Prop("x", N("a")).Prop("k", Int(1)).Prop("z", Arg(pool[2]))`),
@@ -580,6 +584,10 @@ func apiCatalogue(g *gen.Gen, seed int64, budget int, record func(name, owner st
 			case mt.NumIn() == 2 && mt.In(1).Kind() == reflect.String && mt.In(1).PkgPath() == "":
 				for _, str := range []string{"int2", "x"} {
 					unary = append(unary, job{name, owner, r.v.Method(i), mt, true, []reflect.Value{r.v, reflect.ValueOf(str)}, fmt.Sprintf("%s.%s(%q)", r.p, m.Name, str)})
+				}
+			case mt.NumIn() == 2 && mt.In(1).Kind() == reflect.Int32:
+				for _, c := range []rune{'!', '\\', '\''} {
+					unary = append(unary, job{name, owner, r.v.Method(i), mt, true, []reflect.Value{r.v, reflect.ValueOf(c)}, fmt.Sprintf("%s.%s(%q)", r.p, m.Name, c)})
 				}
 			case mt.NumIn() == 3 && mt.In(1).Kind() == reflect.String && expish(mt.In(2)):
 				// Prop(key, value): an existing first / last key, a new key, the empty key
